@@ -1,0 +1,38 @@
+//go:build verif
+// +build verif
+
+// Package verifhook provides observation points for external runtime
+// monitors. With the build tag `verif' every function forwards to a
+// function variable that the monitor installs before the workload starts.
+package verifhook
+
+const Enabled = true
+
+var TickFn  func(site string)
+var YieldFn func(site string)
+var EventFn func(site string, item int, thread int)
+var CountFn func(site string)
+
+func Tick(site string) {
+  if f := TickFn; f != nil {
+    f(site)
+  }
+}
+
+func Yield(site string) {
+  if f := YieldFn; f != nil {
+    f(site)
+  }
+}
+
+func Event(site string, item int, thread int) {
+  if f := EventFn; f != nil {
+    f(site, item, thread)
+  }
+}
+
+func Count(site string) {
+  if f := CountFn; f != nil {
+    f(site)
+  }
+}
